@@ -24,7 +24,7 @@ echo "baseline demo: $base"; echo "build: ${build:-ok}"; echo "suite with change
 results=""
 for p in $prop $extra; do
   start=$(date +%s)
-  res=$(cd /verif && timeout 3000 ./bin/vcheck -p $p -tier $tier -evidence /tmp/seed-evidence 2>&1)
+  res=$(cd /verif && timeout 3000 ${VCHECK:-./bin/vcheck} -p $p -tier $tier -evidence /tmp/seed-evidence 2>&1)
   code=$?
   end=$(date +%s)
   nv=$(echo "$res" | grep -c '^VIOLATION')
